@@ -8,9 +8,9 @@ cd $wt || exit 2
 git -C $wt diff -- nitime > $out/patch.diff
 cp $wt/demo_$pid.py $out/ 2>/dev/null; cp $wt/meta.json $out/meta_agent.json 2>/dev/null
 echo "== demo WITH change"; (cd $wt && PYTHONPATH=$wt timeout 600 /venv/bin/python -W ignore demo_$pid.py > $out/demo_with.log 2>&1; echo "rc=$?" | tee $out/demo_with.rc; tail -3 $out/demo_with.log)
-git -C $wt stash -q -- nitime
+git -C $wt checkout -- nitime   # (no git stash: the stash is shared by all worktrees)
 echo "== demo WITHOUT change"; (cd $wt && PYTHONPATH=$wt timeout 600 /venv/bin/python -W ignore demo_$pid.py > $out/demo_without.log 2>&1; echo "rc=$?" | tee $out/demo_without.rc; tail -3 $out/demo_without.log)
-git -C $wt stash pop -q
+git -C $wt apply $out/patch.diff
 echo "== check WITH change"; (cd /verif && NITIME_REPO=$wt ./check $pid > $out/check_with.log 2>&1; echo "rc=$?" | tee $out/check_with.rc; grep -c VIOLATION $out/check_with.log; tail -2 $out/check_with.log | cut -c1-300)
 first=$(grep -m1 -o 'replay=[^ ]*' $out/check_with.log | cut -d= -f2)
 [ -n "$first" ] && cp $first $out/first_replay.json
